@@ -132,10 +132,11 @@ Final == [prog |-> prog, draws |-> draws, halted |-> halted, echo |-> echo, trk 
           simmeas |-> [i \in 1..sim.n |-> B2I(sim.meas[i-1])],
           evmeas |-> [i \in 1..sim.n |-> B2I(evMeas[i-1])],
           last |-> F2S(last, sim.n), free |-> free,
+          warn |-> Warned,
           vars |-> [i \in 1..Len(vars) |-> [k |-> vars[i].k, cls |-> vars[i].cls, idx |-> vars[i].idx,
                                              tracked |-> B2I(vars[i].tracked)]]]
 DumpFile == IOEnv.QRT_DUMP
-AllInv == ShapeInv /\ UnitInv /\ FlagsAgree /\ LastAgrees /\ Injective /\ FreeDisjoint /\ FreeAreZero
+AllInv == ShapeInv /\ UnitInv /\ FlagsAgree /\ LastAgrees /\ Injective /\ FreeDisjoint /\ FreeAreZero /\ OneNamer /\ FreeUnnamed
 DumpDone == done =>
    LET j == ToJson(Final) IN
    /\ Len(j) > 0
